@@ -14,7 +14,7 @@ Lifecycle_Trace; resource records are judged by TLC (C10_Judge)."""
 import asyncio
 
 from .. import env, tlc
-from ..sessions import AsyncSession
+from ..sessions import AsyncSession, DEFAULT_SNAPSHOT
 from ..simnet import SIM_ADDR
 from .c08 import design_cfg
 from .c07 import frame
@@ -94,7 +94,79 @@ def reset_at(rng, point, net_script=(), settle=0.3):
                         pass
         s.advance(200.0)
         recs.append({"kind": "late", "point": int(point * 1000), "observer_calls": observer_calls[0], "events_delivered": events_after[0]})
+        recs.append(steady(s, "after-reset", point))
     return recs
+
+
+def steady(s, scenario, point=0):
+    """what is alive once everything has settled: a connection owns one task of each name and one endpoint, so any
+    name alive twice, or a second endpoint of a kind, belongs to a connection that was abandoned"""
+    loop = s.loop
+    names = [t.get_name() for t in loop.tasks if not t.done() and t.get_name().startswith(FAMILY)]
+    extra = sorted({n for n in names if names.count(n) > 1})
+    kinds = ["LOC" if tr.kw.get("allow_broadcast") else "SPA" for tr in loop.transports if not tr.closed]
+    return {"kind": "steady", "scenario": scenario, "point": int(point * 1000), "extra_tasks": extra,
+            "extra_endpoints": max(0, kinds.count("SPA") - 1) + max(0, kinds.count("LOC") - 1),
+            "state": s.man.spa_state.name}
+
+
+def event_points():
+    """virtual times just after every event of a fault-free connection (frame boundaries of discovery and handshake)"""
+    with AsyncSession(rank="stable") as s:
+        if not s.wait_connected(60):
+            raise env.MachineryError("event_points: no connection")
+        s.advance(1.0)
+        ts = sorted({round(e["t"], 3) for e in s.events})
+    return ts
+
+
+def reset_in_first_pause(rng, which):
+    """a reset that lands in the (zero-length) pause right after the connection's endpoint was opened, i.e. before
+    the connection's helper tasks exist: whatever the resumed handshake starts afterwards belongs to an abandoned
+    connection and must not stay"""
+    fired = []
+    with AsyncSession(rank="stable", autostart=False) as s:
+        loop = s.loop
+
+        def on_endpoint(tr, proto):
+            if not tr.kw.get("allow_broadcast"):
+                fired.append(loop.time())
+                if len(fired) <= which:
+                    loop.create_task(s.man.async_reset(), name="GV:reset:first-pause")
+        loop.on_endpoint = on_endpoint
+        s.enter()
+        s.advance(60.0 + 60.0 * which)
+        if len(fired) < which:
+            raise env.MachineryError("reset_in_first_pause: the connection endpoint was never opened")
+        return [steady(s, f"reset-in-first-handshake-pause-{which}", fired[which - 1])]
+
+
+def garbled_handshake(rng, n_bad, then_reset):
+    """the first `n_bad` firmware-version answers are truncated (the handshake step raises): whatever the manager
+    does next, the half-open connection does not stay behind a newer one"""
+    import re
+    from ..simnet import SimPeer
+    left = [n_bad]
+
+    class Peer(SimPeer):
+        def on_datagram(self, data, sender):
+            out = []
+            for item in super().on_datagram(data, sender):
+                reply = item[0]
+                if left[0] > 0 and b"<DATAS>SVERS" in reply:
+                    left[0] -= 1
+                    reply = re.sub(rb"<DATAS>.*</DATAS>", b"<DATAS>SVERS\x00\x01</DATAS>", reply, flags=re.DOTALL)
+                out.append((reply,) + tuple(item[1:]))
+            return out
+
+    with AsyncSession(peer=Peer(DEFAULT_SNAPSHOT), rank=rng.choice(["stable", "perm", "reverse"]), rank_seed=rng.random()) as s:
+        s.advance(40.0)
+        if left[0] == n_bad:
+            raise env.MachineryError("garbled_handshake: no version answer was sent")
+        if then_reset:
+            s.run(s.man.async_reset())
+        s.advance(150.0)
+        return [steady(s, f"garbled-version-answer-x{n_bad}{'-then-reset' if then_reset else ''}")]
 
 
 def own_resets(rng, kind):
@@ -258,8 +330,19 @@ def run(ctx):
     pts = [0.05, 2.0, 4.05, 4.25, 4.45, 4.65, 4.85, 6.0, 7.75, 12.0, 70.0] if ctx.quick else \
         [round(0.05 + 0.1 * k, 2) for k in range(0, 95)] + [20.0, 70.0, 131.0]
     recs = []
+    # ... and just after every event of a fault-free connection (the boundaries between the steps)
+    eps = event_points()
+    extra_pts = sorted({round(t + d, 3) for t in eps for d in ((0.001,) if ctx.quick else (0.001, 0.02, 0.09))})
+    if ctx.quick:
+        extra_pts = [p for i, p in enumerate(extra_pts) if i % 2 == 0][:14]
+    pts = sorted(set(pts) | set(extra_pts))
     for p in pts:
         recs += reset_at(rng, p)
+    recs += reset_in_first_pause(rng, 1)
+    recs += reset_in_first_pause(rng, 2)
+    recs += garbled_handshake(rng, 1, True)
+    recs += garbled_handshake(rng, 1, False)
+    recs += garbled_handshake(rng, 3, True)
     # resets in error states
     for p in ([150.0] if ctx.quick else [80.0, 150.0, 200.0, 330.0]):
         recs += reset_at(rng, p, net_script=[(12.0, "blackout")])
